@@ -58,6 +58,10 @@ checks = {
  "C20": dict(cat="exploration", tech="randomness tap on crypto/rand.Reader + differential replay: draw accounting, zero-stream (unblinded) reference proofs, per-draw substitution replay, pairwise distinctness; one child process per curve",
    text="Per curve and back-end, circuits with 0..2 commitments: every Prove draws at least the number of blinding scalars the scheme needs and never re-uses bytes; every blinded element (Ar,Bs,Krs / LRO,Z; first commitment) of honest proofs differs from the deterministic zero-randomness proof; replaying the recorded stream with one accepted scalar replaced still verifies, changes some element, reaches every blinded element, and some draw changes Z without L,R,O (H without L,R,O,Z under statistical ZK); 4-8 proofs of one witness are pairwise distinct in every blinded element.",
    note="the tap replaces the process-global crypto/rand.Reader; rejection-sampled candidates are recognised by re-implementing the samplers' acceptance rule; quotient-shard randomisers visible only through the replay step", ref="§3 C20"),
+
+ "C09": dict(cat="exploration", tech="differential round-trip monitor: every encoding of systems / keys / proofs written, read back from a stream with trailing garbage, re-encoded; decoded systems solved against originals (C06 monitor on); proofs cross-verified over the {original, decoded} system x pk x vk cube",
+   text="3/7 curves + tinyfield/babybear/koalabear systems: generated circuits with commitments, lookup/range-check/hint scenarios, random programs, gadget systems (emulated arithmetic, hashes, GKR metadata, debug info/logs); WriteTo / WriteRawTo / WriteDump+ReadDump / UnsafeReadFrom; ~3.5k cross verifications per quick run. Behavioural equality, not DeepEqual.",
+   note="witness encodings covered by C07; hostile bytes by C08; small-field systems are decoded into zero-value system objects (as groth16.NewCS does for curves)", ref="§3 C09"),
 }
 pending = {}
 for i in range(1,21):
